@@ -306,6 +306,12 @@ def gen_layer_cfg(rng, D, equivariant_domain=True, allow_stride=False, group="B"
         outs = [pool[i] for i in rng.choice(len(pool), size=min(n_out, len(pool)), replace=False)]
         cin = rng.permutation([1, 2, 3, 4])[: len(ins)]
         cout = rng.permutation([1, 2, 3, 4])[: len(outs)]
+        if equal_channels and stratum is not None and stratum % 2 == 1 and len(outs) >= 2:
+            # both parities of one tensor order among the targets, the pseudo-type listed first (no extra draw): two blocks of
+            # equal shape that only their key tells apart (seeded change C06h swapped exactly such a pair)
+            if not any(a[0] == b[0] and a != b for a in outs for b in outs):
+                outs[1] = (outs[0][0], 1 - outs[0][1])
+            outs = sorted(outs, key=lambda t: (t[0], -t[1]))
         if equal_channels:  # the common real-world case: every input type c channels, every target type c' channels
             wide = rng.integers(0, 4) == 0  # sometimes wide (64): code paths gated on the channel count
             cin = [64 if wide else int(cin[0])] * len(ins)
